@@ -6,8 +6,12 @@ from concurrent.futures import ThreadPoolExecutor
 ROOT = os.path.dirname(os.path.dirname(os.path.dirname(os.path.abspath(__file__))))
 SPEC = os.path.join(ROOT, "spec")
 OUT = os.path.join(ROOT, "out")
+if os.environ.get("VERIF_REPO") and os.environ.get("VERIF_SCRATCH_OUT"):
+    # seed testing only (see build_harness): scratch output and evidence directories, so that a check against a seeded
+    # worktree can run next to a check against /repo
+    OUT = os.environ["VERIF_SCRATCH_OUT"]
 HARNESS = os.path.join(ROOT, "harness")
-EVID = os.path.join(ROOT, "evidence")
+EVID = os.path.join(ROOT, "evidence") if OUT == os.path.join(ROOT, "out") else os.path.join(OUT, "evidence")
 JAR = "/opt/veriftools/tla/tla2tools.jar:/opt/veriftools/tla/CommunityModules-deps.jar"
 
 
